@@ -20,6 +20,7 @@ import RsomeV.Drv.RoToRoc
 import RsomeV.Drv.ShowTable
 import RsomeV.Drv.AffExpr
 import RsomeV.Drv.DetModel
+import RsomeV.Drv.AffTri
 open Lean
 namespace RsomeV.Drv
 /-- every operation of the line protocol -/
@@ -69,5 +70,6 @@ def dispatch (op : String) (j : Json) : Except String Json :=
   | "show_table" => opShowTable j
   | "aff_expr" => opAffExpr j
   | "det_model" => opDetModel j
+  | "aff_tri" => opAffTri j
   | _ => throw s!"unknown op {op}"
 end RsomeV.Drv
